@@ -319,7 +319,7 @@ def work(job):
 
 def main():
     chk = core.Check(ID)
-    n = chk.scale(1500, 40000)
+    n = chk.scale(4000, 60000)
     chk.rule = ('document i = f(VERIF_SEED, i): metadata (titles/authors with reserved characters, css present/missing/remote), headings, generated blocks, 0-5 images (inline, '
                 'reference, titled, angle-bracketed, repeated url, missing file, empty file, remote, 1200-byte url, url with a space) and optional {{TOC}} x '
                 '{epub, odt, bundlezip, itmz, textbundle} x {directory given, NULL}; non-trivial = document with >= 1 image; distinct = distinct sources')
